@@ -31,8 +31,10 @@ def histogram(repo, chk, oid):
     loops = [n for n in own_nodes(fn.node) if isinstance(n, ast.For)]
     incs = [n for n in own_nodes(fn.node) if isinstance(n, ast.AugAssign) and isinstance(n.target, ast.Subscript) and isinstance(n.target.value, ast.Name) and n.target.value.id == cont]
     ok = False
-    if len(loops) == 1 and len(incs) == 1 and isinstance(loops[0].target, ast.Name):
-        lp, inc = loops[0], incs[0]
+    # the loop that fills the histogram: the one that holds the increment of the container
+    fill_loops = [lp for lp in loops if incs and any(x is incs[0] for x in ast.walk(lp))]
+    if len(fill_loops) >= 1 and len(incs) == 1 and isinstance(fill_loops[-1].target, ast.Name):
+        lp, inc = fill_loops[-1], incs[0]
         it = term_of(fn, lp.iter, inline=True)
         slot = term_of(fn, inc.target.slice, inline=True)
         v = lp.target.id
@@ -53,8 +55,76 @@ def histogram(repo, chk, oid):
         P = lambda src: term_of(fn, ast.parse(src, mode='eval').body, inline=True)
         vals = P(f'np.nonzero({cont})[0]')
         okr = v == vals and c == ('sub', P(cont), vals)
+    if not okr and len(rets) == 1 and isinstance(rets[0].value, ast.Tuple) and len(rets[0].value.elts) == 2:
+        verdict = _gather_loop(fn, m, cont, rets[0])
+        if verdict == 'ok':
+            okr = True
+        elif verdict == 'unsure':
+            chk.unsure(oid + 'c', 'R9', fn.site(rets[0]), ast.unparse(rets[0]), 'the occupied slots are collected by statements this rule does not recognise (neither np.nonzero(container)[0] / container[...] nor a position-by-position gather over enumerate(container))')
+            return
     chk.expect(okr, oid + 'c', 'R9', fn.site(rets[0]) if rets else fn.site(), ast.unparse(rets[0]) if rets else 'return values, counts', 'values = the non-empty slots (ascending), counts = container at those slots',
                'numba_unique must return (np.nonzero(container)[0], container[those slots]) - values are the slot indices, counts the slot contents, in the same order')
+
+
+def _gather_loop(fn, m, cont, ret):
+    """'ok' when the returned pair (V, C) is filled by   p = 0; for slot, n in enumerate(container): if n != 0: V[p] = slot; C[p] = n; p += 1
+    with V, C allocated with one entry per non-empty slot; 'bad' when such a loop exists but stores something else; 'unsure' otherwise"""
+    def base(e):
+        while isinstance(e, ast.Call) and isinstance(e.func, ast.Attribute) and e.func.attr == 'astype':
+            e = e.func.value
+        return e.id if isinstance(e, ast.Name) else None
+    V, C = [base(x) for x in ret.value.elts]
+    if V is None or C is None or V == C:
+        return 'unsure'
+    loops = [lp for lp in own_nodes(fn.node) if isinstance(lp, ast.For) and isinstance(lp.iter, ast.Call) and isinstance(lp.iter.func, ast.Name) and lp.iter.func.id == 'enumerate' and len(lp.iter.args) == 1
+             and isinstance(lp.iter.args[0], ast.Name) and lp.iter.args[0].id == cont and isinstance(lp.target, ast.Tuple) and len(lp.target.elts) == 2 and all(isinstance(x, ast.Name) for x in lp.target.elts)]
+    if len(loops) != 1:
+        return 'unsure'
+    lp = loops[0]
+    slot, n = lp.target.elts[0].id, lp.target.elts[1].id
+    body = [b for b in lp.body if not isinstance(b, ast.Pass)]
+    if len(body) != 1 or not isinstance(body[0], ast.If) or body[0].orelse:
+        return 'unsure'
+    t = term_of(fn, body[0].test, inline=False)
+    if t not in (('cmp', '!=', ('name', n), ('num', 0)), ('cmp', '!=', ('num', 0), ('name', n)), ('cmp', '<', ('num', 0), ('name', n)), ('name', n)):
+        return 'unsure'
+    stores, adv = {}, []
+    for b in body[0].body:
+        if isinstance(b, ast.Assign) and len(b.targets) == 1 and isinstance(b.targets[0], ast.Subscript) and isinstance(b.targets[0].value, ast.Name) and isinstance(b.targets[0].slice, ast.Name):
+            stores[b.targets[0].value.id] = (b.targets[0].slice.id, ast.unparse(b.value))
+        elif isinstance(b, ast.AugAssign) and isinstance(b.target, ast.Name) and isinstance(b.op, ast.Add) and isinstance(b.value, ast.Constant) and b.value.value == 1:
+            adv.append(b.target.id)
+        else:
+            return 'unsure'
+    if set(stores) != {V, C} or len(adv) != 1 or {stores[V][0], stores[C][0]} != {adv[0]}:
+        return 'unsure'
+    if stores[V][1] != slot or stores[C][1] != n:
+        return 'bad'
+    # cursor starts at 0; V, C have one entry per non-empty slot
+    p = adv[0]
+    init = [x for x in own_nodes(fn.node) if isinstance(x, ast.Assign) and len(x.targets) == 1 and isinstance(x.targets[0], ast.Name) and x.targets[0].id == p]
+    if len(init) != 1 or not (isinstance(init[0].value, ast.Constant) and init[0].value.value == 0):
+        return 'unsure'
+    sizes = set()
+    for nm in (V, C):
+        al = [x for x in own_nodes(fn.node) if isinstance(x, ast.Assign) and len(x.targets) == 1 and isinstance(x.targets[0], ast.Name) and x.targets[0].id == nm and isinstance(x.value, ast.Call)
+              and (m.dotted(x.value.func) or '') in ('numpy.empty', 'numpy.zeros') and x.value.args]
+        if len(al) != 1:
+            return 'unsure'
+        sizes.add(ast.unparse(al[0].value.args[0]))
+    if len(sizes) != 1:
+        return 'unsure'
+    sz = sizes.pop()
+    if sz in (f'np.count_nonzero({cont})', f'numpy.count_nonzero({cont})', f'len(np.nonzero({cont})[0])'):
+        return 'ok'
+    # counted by a loop: k = 0; for c in container: if c != 0: k += 1
+    cnt = [lp2 for lp2 in own_nodes(fn.node) if isinstance(lp2, ast.For) and isinstance(lp2.iter, ast.Name) and lp2.iter.id == cont and isinstance(lp2.target, ast.Name)]
+    for lp2 in cnt:
+        b2 = [b for b in lp2.body if not isinstance(b, ast.Pass)]
+        if len(b2) == 1 and isinstance(b2[0], ast.If) and not b2[0].orelse and len(b2[0].body) == 1 and isinstance(b2[0].body[0], ast.AugAssign) and isinstance(b2[0].body[0].target, ast.Name) and b2[0].body[0].target.id == sz \
+                and isinstance(b2[0].body[0].value, ast.Constant) and b2[0].body[0].value.value == 1 and term_of(fn, b2[0].test, inline=False) in (('cmp', '!=', ('name', lp2.target.id), ('num', 0)), ('cmp', '<', ('num', 0), ('name', lp2.target.id))):
+            return 'ok'
+    return 'unsure'
 
 
 def loop_cursors(repo, chk, oid):
@@ -210,6 +280,54 @@ def self_pair_test(repo, chk, oid):
     par = parents(fn.node)
     E = lambda s: expected_term(m, s, {'X': ('role', 'X'), 'Y': ('role', 'Y')})
     if not sets:
+        # decided on paths: wherever compute_entropies is called, the correction argument is False on the paths that assumed the exact identity
+        # test to hold, and the caller's flag on the paths that assumed it not to hold
+        from ..match import run_paths
+        from ..terms import Canon, Scope
+        cn = Canon(m, Scope(None))
+        ps = run_paths(fn, None, None, max_forks=4)
+        verdicts = []
+        for _a, res in (ps or []):
+            if res.unknown is not None or res.returned is None:
+                verdicts = None
+                break
+            ces = [x for x in ast.walk(res.returned) if isinstance(x, ast.Call) and m.dotted(x.func) == f'{MI}.compute_entropies']
+            ces += [x for c in res.calls for x in ast.walk(c['call']) if isinstance(x, ast.Call) and m.dotted(x.func) == f'{MI}.compute_entropies']
+            ces += [x for v_ in (res.env or {}).values() if v_ is not None for x in ast.walk(v_) if isinstance(x, ast.Call) and m.dotted(x.func) == f'{MI}.compute_entropies']
+            ident = None
+            if ces and len(ces[0].args) >= 2:
+                # the two vectors the entropies are computed on (the sample, when the path sampled) are the ones the identity test must compare
+                tX, tY = term_of(fn, ces[0].args[0], inline=True), term_of(fn, ces[0].args[1], inline=True)
+
+                def roles(t):
+                    if t == tX:
+                        return ('role', 'X')
+                    if t == tY:
+                        return ('role', 'Y')
+                    if isinstance(t, tuple):
+                        return tuple(roles(x) for x in t)
+                    return t
+                for t_ast, v in res.assumed:
+                    tt = roles(term_of(fn, t_ast, inline=True))
+                    if is_exact_identity(tt, E, repo):
+                        ident = v
+                    elif is_exact_identity(cn._not(tt), E, repo):
+                        ident = not v
+            if not ces or ident is None:
+                verdicts = None
+                break
+            for c in ces:
+                a5 = c.args[5] if len(c.args) > 5 else next((k.value for k in c.keywords if k.arg == 'cardinality_correction'), None)
+                ok5 = a5 is not None and ((ident and isinstance(a5, ast.Constant) and a5.value is False) or (not ident and isinstance(a5, ast.Name) and a5.id == flag))
+                verdicts.append((ok5, c, ident))
+        if verdicts:
+            bad5 = [v for v in verdicts if not v[0]]
+            if not bad5:
+                chk.ok(oid + 'a', 'identity-test', fn.site(), f'{len(verdicts)} call(s) of compute_entropies on {len(ps)} path(s)', 'the correction is off exactly on the paths where the two vectors are identical (exact element-wise identity test), the requested flag elsewhere')
+            else:
+                _ok, c, ident = bad5[0]
+                chk.bad(oid + 'a', 'identity-test', fn.site(c) if hasattr(c, 'lineno') else fn.site(), ast.unparse(c)[:120], f'on the path where the vectors are {"identical" if ident else "not identical"} compute_entropies does not receive {"False" if ident else "the requested flag"} as its correction argument')
+            return
         # alternative shape: the flag handed to compute_entropies is `flag and not <identity predicate>`
         ce = [c for c in calls(fn) if m.dotted(c.func) == f'{MI}.compute_entropies']
         arg5 = ce[0].args[5] if ce and len(ce[0].args) > 5 else None
@@ -474,6 +592,17 @@ def elementwise_equality_helper(f):
             inner = st.body[0]
             if it in (E(f'range(len({a}))'), E(f'range(len({b}))'), E(f'numba.prange(len({a}))')) and isinstance(inner, ast.If) and not inner.orelse and ret_false(inner.body) \
                     and term_of(f, inner.test, inline=True) in (E(f'{a}[{i}] != {b}[{i}]'), E(f'{b}[{i}] != {a}[{i}]')):
+                seen_loop = True
+                continue
+            return False
+        # for x, y in zip(a, b): if x != y: return False      (needs the length test: zip stops at the shorter vector)
+        if isinstance(st, ast.For) and not st.orelse and isinstance(st.target, ast.Tuple) and len(st.target.elts) == 2 and all(isinstance(e, ast.Name) for e in st.target.elts) and len(st.body) == 1:
+            x_, y_ = st.target.elts[0].id, st.target.elts[1].id
+            it = term_of(f, st.iter, inline=True)
+            inner = st.body[0]
+            has_len_test = any(isinstance(p_, ast.If) and term_of(f, p_.test, inline=True) in (E(f'len({a}) != len({b})'), E(f'{a}.shape != {b}.shape'), E(f'{a}.size != {b}.size')) for p_ in body[:body.index(st)])
+            if it in (E(f'zip({a}, {b})'), E(f'zip({b}, {a})')) and has_len_test and isinstance(inner, ast.If) and not inner.orelse and ret_false(inner.body) \
+                    and term_of(f, inner.test, inline=False) in (('cmp', '!=', ('name', x_), ('name', y_)), ('cmp', '!=', ('name', y_), ('name', x_))):
                 seen_loop = True
                 continue
             return False
